@@ -86,6 +86,8 @@ def build(spec: Dict, candles: list, cfg: Optional[Dict] = None):
         common["candles_lifespan"] = timedelta(seconds=cfg["lifespan"])
     if spec.get("name_suffix"):
         common["name_suffix"] = spec["name_suffix"]
+    if spec.get("fullname"):
+        common["fullname_override"] = spec["fullname"]
     if spec["kind"] == "AMORPH":
         a = spec["analysis"]
         return I.Amorph(analysis=A.PY[a["f"]], **A.kwargs_of(a), **common)
